@@ -82,6 +82,10 @@ func TestC16(t *testing.T) {
 					relayout(rt, c.Dst, dk, "rd")
 				}
 				avoidF39(c)
+				// the specialised engines see column-major operands as well
+				if (d.Name == "float64" || d.Name == "float32") && rapid.IntRange(0, 2).Draw(rt, "eng") == 0 {
+					c.Engine = map[string]string{"float64": "f64", "float32": "f32"}[d.Name]
+				}
 				return avoidC16EW(c)
 			})
 		}
